@@ -23,6 +23,9 @@ def cond_key(p, drop=()):
 def run(chk, repo, tier):
     from .common import no_hidden_state
     no_hidden_state(chk, repo, 'C11')
+    chk.clause('C11-o', 'evaluating a mode leaves its arguments (mask, rho, theta) untouched: the same coordinates may be reused for another mask', 5)
+    from .common import operands_untouched
+    operands_untouched(chk, repo, 'C11-o', ['zernike.zernike', 'zernike.zernike_compose', 'zernike.zernike_basis', 'zernike.zernike_fit', 'zernike.zernike_remove', 'zernike.zernike_coordinates', 'zernike.R'], allow=[])
     chk.clause('C11-a', 'zero outside the mask: the mask is a factor of every returned mode', 1)
     chk.clause('C11-b', 'the mask is coerced to bool before any other use', 2)
     chk.clause('C11-c', 'normalised = un-normalised x sqrt(n+1) (m = 0) or sqrt(2)*sqrt(n+1) (m != 0); cosine for m > 0, sine for m < 0', 3)
